@@ -14,6 +14,17 @@ use serde_json::json;
 
 pub const KF_OPAQUE: &str = "KF-C12-opaque";
 
+fn impl_block(sa: u8, da: u8) -> Vec<u8> {
+    let mut v = Vec::with_capacity(65537);
+    v.push(hk::blend([0, 0, 0, sa], [0, 0, 0, da])[3]);
+    for s in 0..=255u8 {
+        for d in 0..=255u8 {
+            v.push(hk::blend([s, d, s ^ 0x5a, sa], [d, s, d ^ 0xa5, da])[0]);
+        }
+    }
+    v
+}
+
 fn impl_row(sa: u8) -> u64 {
     let mut h = FNV_INIT;
     for da in 0..=255u8 {
@@ -129,6 +140,7 @@ pub fn run(o: &Opts) -> Report {
     rep.exhaustive = true;
     rep.exhaustive_note = "2^32 (s,sa,d,da) channel tuples: complete, both sides".into();
     rep.hit_n("rows_exhaustive", 256);
+    let mut expanded_rows = 0;
     for sa in 0..256usize {
         if model[sa] == imp[sa].to_string() {
             if sa == 255 {
@@ -143,22 +155,47 @@ pub fn run(o: &Opts) -> Report {
             rep.hit("row_equals_repaired_model");
             continue;
         }
-        // expand the row pixel by pixel until two failing pixels are found
+        // expand: find the first mismatching (sa, da) block by digest, then that block pixel by
+        // pixel (batched); at most three rows are expanded per run
+        if expanded_rows >= 3 {
+            rep.hit("row_mismatch_not_expanded");
+            continue;
+        }
+        expanded_rows += 1;
+        let blines: Vec<String> = (0..256).map(|da| format!("blendblock {sa} {da}")).collect();
+        let bmodel = ask_parallel(&o.drv, &blines, o.jobs);
         let mut found = 0;
-        'outer: for da in 0..=255u8 {
+        for da in 0..=255u8 {
+            let blk = catch(|| impl_block(sa as u8, da)).unwrap_or_default();
+            if fnv_bytes(FNV_INIT, &blk).to_string() == bmodel[da as usize] {
+                continue;
+            }
+            let mut plines = Vec::with_capacity(65536);
+            let mut pix = Vec::with_capacity(65536);
             for s in 0..=255u8 {
                 for d in 0..=255u8 {
                     let src = [s, d, s ^ 0x5a, sa as u8];
                     let dst = [d, s, d ^ 0xa5, da];
+                    plines.push(format!("blend {} {}", hex(&src), hex(&dst)));
+                    pix.push((src, dst));
+                }
+            }
+            let pm = ask_parallel(&o.drv, &plines, o.jobs);
+            for (k, (src, dst)) in pix.iter().enumerate() {
+                let got = catch(|| hk::blend(*src, *dst)).map(|v| hex(&v)).unwrap_or_else(|m| format!("PANIC {m}"));
+                if got != pm[k] {
                     let before = rep.n_disagreements;
-                    check_pixel(&mut drv, &mut rep, src, dst, None);
+                    check_pixel(&mut drv, &mut rep, *src, *dst, Some(&pm[k]));
                     if rep.n_disagreements > before {
                         found += 1;
                         if found >= 2 {
-                            break 'outer;
+                            break;
                         }
                     }
                 }
+            }
+            if found >= 1 {
+                break;
             }
         }
         if found == 0 {
@@ -168,7 +205,7 @@ pub fn run(o: &Opts) -> Report {
                 expected: model[sa].clone(),
                 class: "correspondence",
                 obligation: "tie2: digest of one source-alpha row".into(),
-                detail: "row digest differs but no single pixel reproduced it".into(),
+                detail: "row digest differs; every differing pixel found equals the repaired model".into(),
             });
         }
     }
